@@ -304,16 +304,18 @@ def correspond(ctx, scale):
                 if not (torch.equal(o_adv, o_train) and torch.equal(i_adv, i_train)):
                     failures.append({'key': f'fsq:depends-on-random-draws:{amode}', 'what': f'FSQ({levels}, sym={sym}, noise_dropout=0) in training: with every uniform draw at its extreme ({amode}) '
                                      f'{int((i_adv != i_train).sum())} indices change', 'case': dict(levels=levels)})
-            lv_alias = list(levels)
-            q_alias = FSQ(lv_alias, num_codebooks=ncb, preserve_symmetry=sym)
-            q_alias.eval()
-            o_a1, i_a1 = q_alias(x)
-            for k_ in range(len(lv_alias)):
-                lv_alias[k_] = lv_alias[k_] + 1 if lv_alias[k_] % 2 == 0 else max(2, lv_alias[k_] - 1)      # the caller edits ITS list afterwards (parity of every level flips)
-            o_a2, i_a2 = q_alias(x)
-            dist['constructor_argument_aliasing'] = dist.get('constructor_argument_aliasing', 0) + 1
-            if not (torch.equal(o_a1, o_a2) and torch.equal(i_a1, i_a2)):
-                failures.append({'key': 'fsq:aliases-constructor-argument', 'what': f'FSQ({levels}): editing the caller\'s own levels list after construction changes the module\'s output', 'case': dict(levels=levels)})
+            for edit_to in (3, 4, 9):
+                lv_alias = list(levels)
+                q_alias = FSQ(lv_alias, num_codebooks=ncb, preserve_symmetry=sym)
+                q_alias.eval()
+                o_a1, i_a1 = q_alias(x)
+                for k_ in range(len(lv_alias)):
+                    lv_alias[k_] = edit_to          # the caller edits ITS list afterwards: every level odd (3, 9) / every level even (4), whatever it was
+                o_a2, i_a2 = q_alias(x)
+                dist['constructor_argument_aliasing'] = dist.get('constructor_argument_aliasing', 0) + 1
+                if not (torch.equal(o_a1, o_a2) and torch.equal(i_a1, i_a2)):
+                    failures.append({'key': 'fsq:aliases-constructor-argument', 'what': f'FSQ({levels}): editing the caller\'s own levels list (every entry set to {edit_to}) after construction changes the module\'s output', 'case': dict(levels=levels)})
+                    break
             if not (torch.equal(o_eval, o_train) and torch.equal(i_eval, i_train)):
                 failures.append({'key': 'fsq:depends-on-training-flag', 'what': f'FSQ({levels}, sym={sym}) without noise dropout: train and eval outputs differ', 'case': dict(levels=levels)})
             # memory layout of the caller's tensor: the scalar map is a function of the VALUE - the same values stored transposed / strided / at an
